@@ -11,6 +11,19 @@ use crate::rng::Rng;
 use serde_json::{json, Value};
 use std::path::Path;
 
+/// Accepted or refused is the compiler's business (C16); whatever it accepts must compile.
+const NAME_SHAPES: &[&str] = &[
+    // rule name + kind of one production reads like another rule's name + P<n>
+    "Item: Ta {sP1} | Tb;\nItems: Tb Ta;\nterminals\nTa: 'a';\nTb: 'b';\n",
+    "Decl: Arg ArgP1;\nArg: Ta {P1P1} | Tb Ta;\nArgP1: Tb;\nterminals\nTa: 'a';\nTb: 'b';\n",
+    // a rule whose name ends like a generated production / choice name
+    "Stmt: StmtP1 Ta | Tb;\nStmtP1: Ta Tb | Tb;\nterminals\nTa: 'a';\nTb: 'b';\n",
+    "Body: BodyC1 Ta | Tb Tb;\nBodyC1: Ta Tb | Tb;\nterminals\nTa: 'a';\nTb: 'b';\n",
+    // terminal and rule names that differ in case only / equal a kind
+    "Part: part Ta | Tb;\nterminals\nTa: 'a';\nTb: 'b';\npart: 'p';\n",
+    "Elem: Ta Tb {Tb} | Tb {Ta};\nterminals\nTa: 'a';\nTb: 'b';\n",
+];
+
 pub fn random_config(rng: &mut Rng, k: usize) -> SetSpec {
     // k walks through the lattice so that every value of every dimension appears often
     let glr = (k & 1) == 1;
@@ -111,6 +124,16 @@ pub fn main(a: &Args) {
         let n = a.n.unwrap_or(6);
         let per = if a.thorough { 6 } else { 4 };
         let mut k = a.shard as usize * 7;
+        if a.shard == 2 {
+            // hand-written shapes around the names the generator derives (ProdKind = rule name + kind / P<n>)
+            for text in NAME_SHAPES {
+                for _ in 0..2 {
+                    k += 1;
+                    let spec = random_config(&mut rng, k);
+                    emit(&mut krate, text, "name-shapes", &spec, &mut rep);
+                }
+            }
+        }
         for i in 0..n {
             let (origin, text) = match i % 4 {
                 3 => {
